@@ -439,6 +439,13 @@ def make_candidates(self, fr, M, leaves, states, step_consts, houdini):
                 consider(xa + xb)
                 consider(-xa - xb)
             ea, eb = anchored(a), anchored(b)
+            if houdini and (ea is None or eb is None) and a.kind == 'int' and b.kind == 'int':
+                # the DIFFERENCE of the two entry values is the same expression in every incoming state
+                d0 = stores[0].nf(a.entry[0] - b.entry[0])
+                if all(stores[i].nf(a.entry[i] - b.entry[i]) == d0 for i in range(1, n)) and not any(s_ in gen for s_ in d0.syms()):
+                    d = (xa - xb) - d0
+                    cands.append(('le', d))
+                    cands.append(('le', -d))
             if ea is not None and eb is not None and houdini:
                 # lock-step: difference / sum equal to their entry values
                 d = (xa - xb) - (ea - eb)
@@ -591,6 +598,7 @@ def exec_loop(self, fr, h, entry_states):
     M = leaves = None
     rounds = 0
     changedF = True
+    probed = False
     while True:
         rounds += 1
         if rounds > 60:
@@ -610,6 +618,13 @@ def exec_loop(self, fr, h, entry_states):
             self.silent -= 1
             self.pinned.pop()
         self.stats['houdini_rounds'] += 1
+        if not probed and self.models.e3 and not any(o != h and o in body for o in fr.loops):
+            # (innermost loops only: an interval built by a comparison loop is anchored at that loop's entry)
+            probed = True
+            from . import eqg
+            if eqg.probe_install(self, fr, h, body, entry_states, res['back'], run_body, leaves):
+                changedF = True
+                continue
         # leaves changed by the body but not generalised
         newF = set()
         for B in res['back']:
